@@ -143,9 +143,17 @@ def edArms : EdEnc → List Arm
   | .latin1 => edLatin1Arms
   | .windows1252 => edWindows1252Arms
   | .macRoman => edMacRomanArms
-  | .pdfDoc => edLatin1Arms      -- "PDFDocEncoding is identical to Latin-1 for now"
+  | .pdfDoc => edPdfDocArms
 
+/-- Latin-1 / Windows-1252 / MacRoman: `if byte < 0x80 {byte as char} else if let Some(ch) = map.get ..`;
+PDFDocEncoding (it has entries below 0x80): the map FIRST, then the ASCII pass-through; a byte the
+map lacks is the replacement character (lenient). -/
 def edDecodeByte (k : EdEnc) (b : Nat) : Nat :=
-  if b < edAsciiSplit then b else (lookupArms (edArms k) b).getD edReplacement
+  match k with
+  | .pdfDoc =>
+    match lookupArms edPdfDocArms b with
+    | some u => u
+    | none => if b < edAsciiSplit then b else edReplacement
+  | _ => if b < edAsciiSplit then b else (lookupArms (edArms k) b).getD edReplacement
 
 end OxiVerif.C25
